@@ -175,6 +175,22 @@ func init() {
 		hist := genMetaHistory(c)
 		return runInterleaved(c, "meta", features, hist, pickCheckpoints(c, len(hist), 2), metaQueries)
 	})
+	// "gates" (C35): the same reads under the feature sets that disable something a read needs
+	// (PCEV off, MOVES_HISTORY off with PCEV off / SYNC): such reads must be rejected, not answered.
+	registerWorkload("gates", func(c *gen.Ctx) (In, Out) {
+		fs := gen.Pick(c.R, featureSets[4:])
+		features := map[string]string{
+			"MOVES_HISTORY": "ON", "MOVES_HISTORY_POST_COMMIT_EFFECTIVE_VOLUMES": "SYNC",
+			"ACCOUNT_METADATA_HISTORY": "SYNC", "TRANSACTION_METADATA_HISTORY": "SYNC", "HASH_LOGS": "DISABLED",
+		}
+		for k, v := range fs.set {
+			features[k] = v
+		}
+		hist := genHistory(c)
+		return runInterleaved(c, "gates", features, hist, map[int]bool{}, func(c *gen.Ctx, f map[string]string, done []Step, last bool) []Step {
+			return append(pitQueries(c, f, done, false), filterQueries(c, f, done, false)...)
+		})
+	})
 	registerWorkload("pit", func(c *gen.Ctx) (In, Out) {
 		features := pickFeatures(c)
 		hist := genHistory(c)
